@@ -47,8 +47,8 @@ def generate(rng, tier):
         ops.append({"t": b["t"], "op": "browse", "h": "B", "id": b["id"], "types": b["types"], "delay": b["delay"],
                     "qtype": b["qtype"]})
     all_types = [t for b in browsers for t in b["types"]]
-    horizon = rng.choice([1500.0, 3000.0, 6000.0, 10800.0])
-    nrec = rng.choice([1, 2, 2, 3, 4, 6])
+    horizon = rng.choice([1500.0, 3000.0, 6000.0, 10800.0] + ([21600.0] if tier == "thorough" else []))
+    nrec = rng.choice([1, 2, 2, 3, 4, 6] + ([10, 16] if tier == "thorough" else []))
     insts = []
     t = rng.choice([0.005, 0.3, 16.0, 20.0, 45.0])
     for i in range(nrec):
